@@ -1,0 +1,28 @@
+//go:build verif
+// +build verif
+
+package redis
+
+import (
+	"github.com/samaritan-proxy/samaritan/pb/config/protocol"
+	predis "github.com/samaritan-proxy/samaritan/pb/config/protocol/redis"
+	"github.com/samaritan-proxy/samaritan/pb/config/service"
+)
+
+// UpdateCompression replaces the service configuration by a copy with a new compression
+// section, the way a configuration update from discovery does (config.Update): the section
+// is a new object, the one of the previous configuration is left as it was.
+func (e *VerifEnv) UpdateCompression(enable bool, threshold uint32) {
+	old := e.p.cfg.Raw()
+	opt := &protocol.RedisOption{}
+	if o := old.GetRedisOption(); o != nil {
+		opt.ReadStrategy = o.ReadStrategy
+	}
+	e.comp = &predis.Compression{Enable: enable, Threshold: threshold, Algorithm: predis.Compression_SNAPPY}
+	opt.Compression = e.comp
+	e.p.cfg.Update(&service.Config{
+		ConnectTimeout:  old.ConnectTimeout,
+		Protocol:        old.Protocol,
+		ProtocolOptions: &service.Config_RedisOption{RedisOption: opt},
+	})
+}
